@@ -261,7 +261,7 @@ class Engine:
         self.hints = []  # optional constraints that make a counterexample easier to replay natively
         self.stubs = {}  # last path segment of a callee -> generator(engine, args, pcs)
         self.solver = z3.Solver()
-        self.query_timeout_ms = 600000
+        self.query_timeout_ms = 1500000
         self.solver.set("timeout", self.query_timeout_ms)
         self.inputs = []
         self.pre = []
